@@ -587,7 +587,22 @@ def r36(ctx: Ctx) -> RuleReport:
         if isinstance(n, ast.If) and norm(n.test).startswith('isinstance(') and norm(n.test).endswith(', Pop)') \
                 and len(n.body) == 1 and isinstance(n.body[0], ast.Break):
             brk_ok = True
-    rep.add('penman.layout:_configure_node: a Pop datum ends the current node (break)', cn.loc(), 'ok' if brk_ok else 'undecided')
+    extra_pop = None
+    for n in walk_local(cn.node):
+        if isinstance(n, ast.If) and norm(n.test).startswith('isinstance(') and norm(n.test).endswith(', Pop)') and any(isinstance(b, ast.Break) for b in ast.walk(n)):
+            dname = cn.positional[1] if len(cn.positional) > 1 else 'data'
+            for x in n.body:
+                for c in ast.walk(x):
+                    if isinstance(c, ast.Call) and isinstance(c.func, ast.Attribute) and c.func.attr == 'pop' and norm(c.func.value) == dname:
+                        extra_pop = c
+                    if isinstance(c, ast.Delete) and any(norm(t).startswith(dname) for t in c.targets):
+                        extra_pop = c
+    if extra_pop is not None:
+        rep.violation('penman.layout:_configure_node: a Pop datum ends the current node (break)', cn.loc(extra_pop),
+                      f'on a Pop datum the node also consumes further data (`{norm(extra_pop)}`): a run of n POPs - a triple that closes n nested nodes at once - then closes ONE '
+                      f'node; the enclosing nodes stay open and later branches are attached too deep ("(a :ARG0 (b :ARG1 (c)) :ARG2 b)" re-encodes with :ARG2 inside b)')
+    else:
+        rep.add('penman.layout:_configure_node: a Pop datum ends the current node (break)', cn.loc(), 'ok' if brk_ok else 'undecided')
     # ... and nothing else does, except a datum that could not be placed and was put back
     for n in walk_local(cn.node):
         if not isinstance(n, (ast.Break, ast.Return)) or (isinstance(n, ast.Return) and cfg3.node_of(n) == cfg3.exit):
@@ -1724,4 +1739,70 @@ def r133(ctx: Ctx) -> RuleReport:
             rep.undecided(key, fi.loc(n), f'`{E_}` is re-bound: {norm(n)[:60]}')
     if not rebinds and not muts:
         rep.ok(key, fi.loc(used[0]), norm(used[0])[:60])
+    return rep
+
+
+# ---------------------------------------------------------------------------------------------
+@rule('R134', 'writing the markers onto a branch leaves a target without markers as it is: a missing target (None) is not turned into text')
+def r134(ctx: Ctx) -> RuleReport:
+    rep = RuleReport('R134', r134.title, floor=1)
+    fi = ctx.repo.func(L, '_process_epigraph')
+    loops = [n for n in walk_local(fi.node) if isinstance(n, ast.For) and isinstance(n.target, (ast.Tuple,))]
+    tname = None
+    for lp in loops:
+        for x in ast.walk(lp.target):
+            if isinstance(x, ast.Tuple) and len(x.elts) == 3 and all(isinstance(e, ast.Name) for e in x.elts):
+                tname, ename, outer = x.elts[1].id, x.elts[2].id, lp
+    if tname is None:
+        rep.undecided(f'{fi.fq}: loop over (role, target, markers)', fi.loc(), 'not found')
+        return rep
+    pm = ctx.repo.parent_map(fi.node)
+    rebinds = [n for n in ast.walk(outer) if isinstance(n, ast.Assign) and any(isinstance(t, ast.Name) and t.id == tname for t in n.targets)]
+    n_sites = 0
+    for n in rebinds:
+        v = n.value
+        textual = isinstance(v, ast.JoinedStr) or (isinstance(v, ast.Call) and norm(v.func) in ('str', 'format', 'repr')) or \
+            (isinstance(v, ast.BinOp) and isinstance(v.op, ast.Add)) or (isinstance(v, ast.Call) and isinstance(v.func, ast.Attribute) and v.func.attr in ('format', 'join'))
+        if not textual or not any(isinstance(x, ast.Name) and x.id == tname for x in ast.walk(v)):
+            continue
+        n_sites += 1
+        key = f'{fi.fq}: `{norm(n)[:60]}` only runs for a target that carries a marker'
+        in_marker_loop = any(isinstance(a, ast.For) and norm(a.iter) == ename for a in _ancestors(pm, n))
+        from ..resolve import facts_ex
+        fx = {(f.replace(' ', ''), pol) for f, pol in facts_ex(ctx, fi, n)}
+        not_none = (f'{tname}isNone', False) in fx or (f'{tname}isnotNone', True) in fx
+        if in_marker_loop or not_none:
+            rep.ok(key, fi.loc(n), 'inside the loop over the markers' if in_marker_loop else 'None excluded')
+        else:
+            rep.violation(key, fi.loc(n), f'every atomic target is formatted into a string here, marker or not: a missing target (None, as in "(a :ARG0 )") becomes the text "None" - '
+                          f'the encoded graph says ":ARG0 None" and decodes with a symbol where there was no value')
+    if not n_sites:
+        rep.ok(f'{fi.fq}: the target is never re-formatted', fi.loc())
+    return rep
+
+
+# ---------------------------------------------------------------------------------------------
+@rule('R136', 'rearrange reaches every nested node: no exit of _rearrange comes before the loop that recurses into the branches')
+def r136(ctx: Ctx) -> RuleReport:
+    rep = RuleReport('R136', r136.title, floor=1)
+    fi = ctx.repo.func(L, '_rearrange')
+    cfg = CFG(fi.node)
+    rec_loops = []
+    for n in walk_local(fi.node):
+        if isinstance(n, (ast.For, ast.While)) and any(isinstance(c, ast.Call) and norm(c.func) == fi.name for c in ast.walk(n)):
+            rec_loops.append(n)
+    key = f'{fi.fq}: every path through the function passes the loop that recurses into nested nodes'
+    if not rec_loops:
+        recs = [c for c in walk_local(fi.node) if isinstance(c, ast.Call) and norm(c.func) == fi.name]
+        rep.add(key, fi.loc(), 'undecided' if recs else 'violation', 'the recursion is not inside a loop over the branches' if recs else
+                '_rearrange never calls itself: only the top node is rearranged')
+        return rep
+    heads = {cfg.node_of(lp) for lp in rec_loops}
+    path = cfg.path_avoiding([(cfg.entry, None)], {cfg.exit}, lambda nd: nd.id in heads)
+    if path:
+        conds = [norm(cfg.nodes[x].ast)[:50] for x in path if cfg.nodes[x].kind == 'cond'][-3:]
+        rep.violation(key, fi.loc(rec_loops[0]), f'the function can return before that loop (through {conds}): for such a node nothing below it is rearranged - its nested nodes keep '
+                      f'their old branch order although the key asks for another one')
+    else:
+        rep.ok(key, fi.loc(rec_loops[0]))
     return rep
